@@ -18,13 +18,18 @@ from props import c11_extract
 
 ID = "C11"
 LEAN_MODEL_TARGETS = ["drv_c11"]
-LEAN_PROOF_TARGETS = ["PyroProps.C11"]
-AUDIT_FILES = ["PyroModel/Batch.lean", "PyroModel/Gen/C11.lean", "PyroProofs/Batch.lean", "PyroProps/C11.lean"]
+LEAN_PROOF_TARGETS = ["PyroProps.C11Src", "PyroProps.C11"]   # C11Src imports C11: the audit sees both
+AUDIT_FILES = ["PyroModel/Batch.lean", "PyroModel/BatchSrc.lean", "PyroModel/Gen/C11.lean", "PyroProofs/Batch.lean", "PyroProps/C11.lean",
+               "PyroProps/C11Src.lean"]
 THEOREMS = ["Pyro.C11.C11_refines", "Pyro.C11.C11_oneway", "Pyro.C11.C11_positions", "Pyro.C11.C11_submit_failure",
             "Pyro.C11.C11_stops", "Pyro.C11.C11_executed_prefix", "Pyro.C11.C11_sequential_spec", "Pyro.C11.C11_program",
             "Pyro.C11.C11_pre_failure", "Pyro.C11.C11_statement_holds", "Pyro.C11.C11_statement_fails_when_pre_raises",
             "Pyro.C11.C11_gen_dumpsCall_accepts_no_kwargs", "Pyro.C11.C11_gen_wrapper_transportable", "Pyro.C11.C11_gen_server_probes", "Pyro.C11.C11_gen_single_probes",
-            "Pyro.C11.C11_gen_generator_probes", "Pyro.C11.C11_gen_client_facts"]
+            "Pyro.C11.C11_gen_generator_probes", "Pyro.C11.C11_gen_client_facts",
+            # round 5: the transcription of the source (harness/props/c11_tr.py -> Gen/C11.lean) against the model
+            "Pyro.C11.C11_batchLoop_translated", "Pyro.C11.C11_resultsGen_translated", "Pyro.C11.C11_invokeBatch_translated",
+            "Pyro.C11.C11_clientBatch_translated", "Pyro.C11.C11_source_refines", "Pyro.C11.C11_source_oneway",
+            "Pyro.C11.C11_malformed_item"]
 SUITES = ["batch", "sequential", "program"]
 RULE = ("a case = a generated finite-state reference object (1..4 states; per (state, method, argument) a row: next state + "
         "returned value or raised exception; state dependent availability of two dynamic members) + a call list of length "
